@@ -170,9 +170,13 @@ Definition step (s : state) (l : label) : state :=
           | true, None, c :: rest =>
               match nth_error (calls s) c with
               | Some cl =>
-                  mkState (now s) (wheel s) (upd (calls s) c (set_call cl (c_st cl) (c_ch cl) LHandler (c_first cl)))
-                          (upd (actors s) a (mkActor true (a_accept ac) rest (Some c) (a_stored ac)))
-                          (fwds s) (replies s)
+                  match c_loc cl with
+                  | LMbox =>
+                      mkState (now s) (wheel s) (upd (calls s) c (set_call cl (c_st cl) (c_ch cl) LHandler (c_first cl)))
+                              (upd (actors s) a (mkActor true (a_accept ac) rest (Some c) (a_stored ac)))
+                              (fwds s) (replies s)
+                  | _ => s
+                  end
               | None => s
               end
           | _, _, _ => s
@@ -586,10 +590,13 @@ Definition exec_op_gen (tf f : nat) (d : drv) (o : op) : drv :=
           end
       end
   | OKill a =>
+      if mem a (d_kill d) then d else     (* the signal port is a oneshot: later kills send nothing *)
       dpush (mkDrv (d_s d) (d_q d) (d_plans d) (d_tplans d) (a :: d_kill d) (d_stop d) (d_drain d) (d_groups d) (d_ls d)) (TActor a)
   | OStop a =>
+      if mem a (d_stop d) then d else
       dpush (mkDrv (d_s d) (d_q d) (d_plans d) (d_tplans d) (d_kill d) (a :: d_stop d) (d_drain d) (d_groups d) (d_ls d)) (TActor a)
   | ODrain a =>
+      if mem a (d_drain d) then d else
       dpush (dstep (mkDrv (d_s d) (d_q d) (d_plans d) (d_tplans d) (d_kill d) (d_stop d) (a :: d_drain d) (d_groups d) (d_ls d))
                    (StopAccept a)) (TActor a)
   | OSettle => settle_full tf f d
